@@ -8,7 +8,8 @@
 // The loop runs kForever; the script is executed by a task inside it.  "wait ms" lets the loop run for at least ms milliseconds
 // (a loop TimerEvent on the real monotonic clock; its callback runs BEFORE the descriptors of the same pass are served, so the
 // operations that follow may hit a timer that epoll has already reported); "await i" runs the loop until object i has fired, or
-// for 1.5 s (only when isEnabled() and the driver installed a callback).  Callbacks cannot wait.
+// for 1.5 s (only when isEnabled(), the driver installed a callback and first > 0; given up as soon as a callback has disabled the
+// awaited object: these conditions only decide how long the driver waits, never the verdict).  Callbacks cannot wait.
 // Recorded per operation: a "call" line before it, then its line with arguments, return value, isEnabled() of both objects and
 // the monotonic clock in microseconds since the start of the execution: "t0" read before enable()/remainTime(), "t" read after
 // the call (rounded up).  Per invocation: "fire" (clock read inside the callback, isEnabled() at callback entry) and "cbend".
@@ -91,6 +92,12 @@ struct Exec {
             awaiting = 0;
             pace->disable();
             loop->runNext([this, i] { out("{\"e\":\"await\",\"i\":" + std::to_string(i) + ",\"ok\":true,\"t\":" + std::to_string(after()) + "}"); step(); }, "e10-await");
+        } else if (awaiting && !(tf[awaiting] && tf[awaiting]->isEnabled() && has_cb[awaiting])) {
+            // the awaited object was disabled / cleaned up / destroyed by this callback: no point in waiting 1.5 s for it
+            int a = awaiting;
+            awaiting = 0;
+            pace->disable();
+            loop->runNext([this, a] { out("{\"e\":\"await\",\"i\":" + std::to_string(a) + ",\"ok\":false,\"t\":" + std::to_string(after()) + "}"); step(); }, "e10-await");
         }
     }
     void install(int i) {
@@ -126,6 +133,7 @@ struct Exec {
             out(head("init", i) + ",\"f\":" + std::to_string(f) + ",\"r\":" + std::to_string(r) + ",\"ret\":" + b(ret) + ",\"t\":" + std::to_string(after()) + en() + "}");
             if (inited[i]) has_cb[i] = false;     // the driver's belief (decides only whether "await" is worth waiting for)
             inited[i] = true;
+            zero_first[i] = (f == 0);
         } else if (o == "setcb") {
             bool on = op.value("on", true);
             call("setcb", i);
@@ -157,6 +165,7 @@ struct Exec {
         }
     }
     bool inited[N + 1] = {false, false, false};
+    bool zero_first[N + 1] = {false, false, false};
     int pace_await = 0;                  // what the pace timer stands for: 0 = a wait, i = the limit of "await i"
     void on_pace() {
         if (pace_await) {
@@ -187,7 +196,7 @@ struct Exec {
             }
             if (o == "await") {
                 int i = op.value("i", 0);
-                if (i < 1 || i > N || !tf[i] || !tf[i]->isEnabled() || !has_cb[i]) continue;
+                if (i < 1 || i > N || !tf[i] || !tf[i]->isEnabled() || !has_cb[i] || zero_first[i]) continue;   // first = 0 "does not work"
                 awaiting = i;
                 pace_await = i;
                 pace->initialize(std::chrono::milliseconds(AWAIT_LIMIT_MS), tbox::event::Event::Mode::kOneshot);
